@@ -451,6 +451,22 @@ fn render_tvd<'a, T: TupleDelta>(table: &[u8], count_bits: u16, shared_pts: Stri
     std::iter::once(head).chain(out).collect::<Vec<_>>().join(" | ")
 }
 
+/// what `Ctx::call` does before the real call: the watchdog (hang) and the crash tracer learn the input
+fn begin(req: &str) {
+    PROGRESS.fetch_add(1, Ordering::Relaxed);
+    {
+        let mut cur = CURRENT.lock().unwrap();
+        cur.0.clear();
+        cur.0.push_str(req);
+        cur.1.clear();
+    }
+    if let Some(t) = TRACE.lock().unwrap().as_mut() {
+        use std::io::Write;
+        let _ = writeln!(t, "{req}");
+        let _ = t.flush();
+    }
+}
+
 /// record one case + the oracles of the call
 fn settle(ctx: &mut Ctx, req: String, bytes: &[u8], r: Result<(String, Seen), String>) {
     PROGRESS.fetch_add(1, Ordering::Relaxed);
@@ -469,7 +485,12 @@ fn settle(ctx: &mut Ctx, req: String, bytes: &[u8], r: Result<(String, Seen), St
 /// branch distribution: which kinds of results each command produced (`<cmd>.<kind>`: error kinds,
 /// `none` / `n` answers, values, non-zero values)
 fn classify(ctx: &mut Ctx, req: &str, resp: &str) {
-    let cmd = req.split(' ').next().unwrap_or("").trim_start_matches("hv.").to_string();
+    let mut words = req.split(' ');
+    let mut cmd = words.next().unwrap_or("").trim_start_matches("hv.").to_string();
+    if cmd == "acc" {
+        // dense / sparse and the coordinate type separately
+        cmd = format!("acc.{}{}", words.next().unwrap_or(""), words.next().unwrap_or(""));
+    }
     let mut kinds: Vec<&'static str> = vec![];
     for tok in resp.split(|c: char| c == ' ' || c == '|' || c == ':' || c == '/' || c == '+') {
         let k = match tok {
@@ -504,6 +525,7 @@ fn classify(ctx: &mut Ctx, req: &str, resp: &str) {
 
 fn ask_tvhdr(ctx: &mut Ctx, ac: u16, bytes: &[u8]) {
     let req = format!("hv.tvhdr {} {}", ac, hex(bytes));
+    begin(&req);
     let r = catch(|| {
         let mut seen = Seen::default();
         let s = match TupleVariationHeader::read(FontData::new(bytes), ac) {
@@ -565,6 +587,7 @@ fn run_tvhdr(ctx: &mut Ctx) {
 
 fn ask_cvar(ctx: &mut Ctx, ac: u16, coords: &[i16], bytes: &[u8]) {
     let req = format!("hv.cvar {} {}{}", ac, hex(bytes), coord_args(coords));
+    begin(&req);
     let cs = f2(coords);
     let r = catch(|| {
         let mut seen = Seen::default();
@@ -630,6 +653,7 @@ fn run_cvar(ctx: &mut Ctx) {
 /// `Cvar::deltas`: `hv.cvard <axis_count> <n> <hex> <coords…>` with the buffer `[MAX, MIN, 0, …]`
 fn ask_cvard(ctx: &mut Ctx, ac: u16, n: usize, coords: &[i16], bytes: &[u8]) {
     let req = format!("hv.cvard {} {} {}{}", ac, n, hex(bytes), coord_args(coords));
+    begin(&req);
     let cs = f2(coords);
     let r = catch(|| {
         let s = match Cvar::read(FontData::new(bytes)) {
@@ -700,6 +724,7 @@ fn gvar_table(rng: &mut Rng, s: &GvarSpec) -> B {
 
 fn ask_gvarhdr(ctx: &mut Ctx, gids: &[u32], bytes: &[u8]) {
     let req = format!("hv.gvarhdr {} {}", hex(bytes), join(gids));
+    begin(&req);
     let r = catch(|| {
         let mut seen = Seen::default();
         let s = match Gvar::read(FontData::new(bytes)) {
@@ -763,6 +788,7 @@ fn ask_gvarhdr(ctx: &mut Ctx, gids: &[u32], bytes: &[u8]) {
 
 fn ask_gvar(ctx: &mut Ctx, gid: u32, coords: &[i16], bytes: &[u8]) {
     let req = format!("hv.gvar {} {}{}", gid, hex(bytes), coord_args(coords));
+    begin(&req);
     let cs = f2(coords);
     let r = catch(|| {
         let mut seen = Seen::default();
@@ -895,6 +921,7 @@ fn dsim_bytes(rng: &mut Rng, format: u8, entry_format: u8, map_count: u32) -> B 
 
 fn ask_dsim(ctx: &mut Ctx, idxs: &[u32], bytes: &[u8]) {
     let req = format!("hv.dsim {} {}", hex(bytes), join(idxs));
+    begin(&req);
     let r = catch(|| {
         let mut seen = Seen::default();
         let s = match DeltaSetIndexMap::read(FontData::new(bytes)) {
@@ -1049,6 +1076,7 @@ fn ivs(rng: &mut Rng, axis_count: u16, n_regions: u16, n_data: usize, min_items:
 fn ask_ivs(ctx: &mut Ctx, pairs: &[(u16, u16)], coords: &[i16], bytes: &[u8]) {
     let flat: Vec<u16> = pairs.iter().flat_map(|(a, b)| [*a, *b]).collect();
     let req = format!("hv.ivs {} {} {}{}", hex(bytes), flat.len(), join(&flat).trim_end_matches('-').trim_end(), coord_args(coords)).replace("  ", " ");
+    begin(&req);
     let cs = f2(coords);
     let r = catch(|| {
         let s = match ItemVariationStore::read(FontData::new(bytes)) {
@@ -1170,6 +1198,7 @@ fn metrics_var_table(rng: &mut Rng, n_maps: usize, axis_count: u16) -> B {
 
 fn ask_metrics(ctx: &mut Ctx, vvar: bool, which: usize, gids: &[u32], coords: &[i16], bytes: &[u8]) {
     let req = format!("hv.metrics {} {} {} {} {}{}", if vvar { "v" } else { "h" }, which, hex(bytes), gids.len(), join(gids), coord_args(coords));
+    begin(&req);
     let cs = f2(coords);
     let fx = |r: Result<Fixed, ReadError>| match r {
         Ok(v) => v.to_bits().to_string(),
@@ -1243,6 +1272,7 @@ const MVAR_TAGS: [&[u8; 4]; 10] = [b"hasc", b"hdsc", b"hlgp", b"xhgt", b"cpht", 
 
 fn ask_mvar(ctx: &mut Ctx, tags: &[u32], coords: &[i16], bytes: &[u8]) {
     let req = format!("hv.mvar {} {} {}{}", hex(bytes), tags.len(), join(tags), coord_args(coords));
+    begin(&req);
     let cs = f2(coords);
     let r = catch(|| {
         let per: Vec<String> = match Mvar::read(FontData::new(bytes)) {
@@ -1304,6 +1334,7 @@ fn run_mvar(ctx: &mut Ctx) {
 
 fn ask_avar(ctx: &mut Ctx, coords: &[i32], bytes: &[u8]) {
     let req = format!("hv.avar {} {}", hex(bytes), join(coords));
+    begin(&req);
     let r = catch(|| {
         let per: Vec<String> = match SegmentMaps::read(FontData::new(bytes)) {
             Err(e) => coords.iter().map(|_| err_str(&e)).collect(),
@@ -1374,6 +1405,7 @@ fn acc_one<D: PointCoord>(t: &TupleVariation<GlyphDelta>, sparse: bool, n: usize
 
 fn ask_acc(ctx: &mut Ctx, sparse: bool, kind: char, scalar: i32, n: usize, nf: usize, gid: u32, k: usize, bytes: &[u8]) {
     let req = format!("hv.acc {} {} {} {} {} {} {} {}", if sparse { "s" } else { "d" }, kind, scalar, n, nf, gid, k, hex(bytes));
+    begin(&req);
     let r = catch(|| {
         let s = match Gvar::read(FontData::new(bytes)).and_then(|g| g.glyph_variation_data(GlyphId::new(gid))) {
             Err(e) => err_str(&e),
@@ -1415,6 +1447,32 @@ fn run_acc(ctx: &mut Ctx) {
                 v.push(0);
             }
             glyphs.push(v);
+        }
+        if round % 2 == 0 {
+            // dense-friendly glyph 0: two tuples with private "all points" numbers whose x and y deltas
+            // are packed separately, so that no run crosses the coordinate boundary
+            let mut headers = B::new();
+            let mut ser = vec![];
+            for _ in 0..2 {
+                let mut body = vec![0u8];
+                for _ in 0..2 {
+                    let vals: Vec<i32> = (0..n_points + 4).map(|_| rdelta(&mut ctx.rng)).collect();
+                    body.extend(packed_deltas(&vals, &mut ctx.rng));
+                }
+                headers.f16(body.len() as u16).f16(0xA000);
+                for _ in 0..axis_count {
+                    headers.i16(rcoord(&mut ctx.rng));
+                }
+                ser.extend(body);
+            }
+            let mut g = B::new();
+            g.f16(2).f16(4 + headers.len() as u16);
+            g.append(&headers);
+            g.bytes(&ser);
+            if g.len() % 2 == 1 {
+                g.u8(0);
+            }
+            glyphs[0] = g.v;
         }
         let spec = GvarSpec { axis_count, n_shared: 0, glyphs, long: round % 2 == 0 };
         let b = gvar_table(&mut ctx.rng, &spec);
@@ -1514,6 +1572,7 @@ fn ask_phantom(ctx: &mut Ctx, gid: u32, coords: &[i16], glyf_b: &[u8], loca_b: &
     let specs: Option<Vec<String>> = (0..n_glyphs as u32 + 1).map(|g| glyph_spec(&glyf, &loca, g)).collect();
     let (Some(specs), Some(dflt)) = (specs, glyph_spec(&glyf, &loca, 0xFFFF)) else { return };
     let req = format!("hv.phantom {} {} {} {} {}{}", gid, hex(bytes), dflt, specs.len(), specs.join(" "), coord_args(coords));
+    begin(&req);
     let cs = f2(coords);
     let r = catch(|| {
         let s = match Gvar::read(FontData::new(bytes)) {
